@@ -1,3 +1,191 @@
-/- C14 — property theorems only (helper lemmas live in `Rooc/Proofs`). -/
+/-
+C14 — Every simplex step preserves equivalence, feasibility and monotonicity.  PROPERTY THEOREMS ONLY
+(lemmas live in `Rooc/Proofs/{Pivot,Step,BasicSol,Optimal,Feasible,Unbounded}.lean`).
+
+The theorems are about the very functions of `Rooc/Tableau.lean` that are diffed bit-for-bit against
+`tableau.rs` at `Float`, here instantiated at an arbitrary linearly ordered field `K` with exact arithmetic
+(`exactArith`, `Rooc/Proofs/FieldArith.lean`).  `tol` is the tolerance of `math_utils.rs`; statements
+that hold for every `tol` say so, statements that need exact comparisons are stated at `tol = 0` and come
+with a proved counterexample for `tol > 0`.  Vocabulary (`Sol`, `Canon`, `Feasible`, `ObjInv`,
+`basicSolution`): `Rooc/TabSem.lean`.
+-/
+import Rooc.Proofs.Unbounded
+import Mathlib.Algebra.Order.Field.Rat
+import Mathlib.Tactic.NormNum
 namespace Rooc.Props.C14
+open Rooc Tableau TabSem
+variable {K : Type} [Field K] [LinearOrder K] [IsStrictOrderedRing K]
+attribute [local instance] exactArith
+
+/-- **pivot_equiv.** Pivoting on ANY non-zero element keeps the solution set of `[A | b]`. -/
+theorem pivot_equiv {T : Tab K} {m n : Nat} (hR : Rect T m n) {t h : Nat} (ht : t < m)
+    (hp : nth (row T.a t) h ≠ 0) (x : List K) : Sol (pivot T t h) x ↔ Sol T x :=
+  PivotLemmas.pivot_sol hR ht hp x
+
+/-- **pivot_basis.** Canonical form (rectangular, basic columns are unit columns, basic indices in range,
+basic reduced costs zero) survives a pivot on any non-zero element of a column `h < n`. -/
+theorem pivot_basis {T : Tab K} {m n : Nat} (hC : Canon T m n) {t h : Nat} (ht : t < m) (hh : h < n)
+    (hp : nth (row T.a t) h ≠ 0) : Canon (pivot T t h) m n :=
+  PivotLemmas.pivot_canon hC ht hh hp
+
+/-- **pivot_feasible** (exact comparisons).  The row chosen by `find_t` keeps `b ≥ 0`. -/
+theorem pivot_feasible {T : Tab K} {m n : Nat} (hR : Rect T m n) (hF : Feasible T) {h : Nat}
+    {prefer : List Nat} {t : Nat} {ratio : K} (hf : findT (0:K) T h prefer = some (t, ratio)) :
+    Feasible (pivot T t h) :=
+  FeasibleLemmas.pivot_feasible_exact hR hF hf
+
+/-- **pivot_monotone.** Entering a column of non-positive reduced cost on a positive pivot with `b_t ≥ 0`
+never decreases `current_value`, i.e. never increases the objective `−current_value`. -/
+theorem pivot_monotone {T : Tab K} {t h : Nat} (hc : nth T.c h ≤ 0) (hp : 0 < nth (row T.a t) h)
+    (hb : 0 ≤ nth T.b t) : T.value ≤ (pivot T t h).value :=
+  PivotLemmas.pivot_value_ge hc hp hb
+
+/-- **value_tracks_objective.** In canonical form the basic solution solves the system and `current_value`
+is minus its objective (for the objective `c0` that `(c, value)` represent on the solution set). -/
+theorem value_tracks_objective {T : Tab K} {m n : Nat} (hC : Canon T m n) {c0 : List K} (hO : ObjInv T c0) :
+    Sol T (basicSolution T) ∧ dot c0 (basicSolution T) = -T.value :=
+  ⟨BasicSol.basicSolution_sol hC, BasicSol.basicSolution_objective hC hO⟩
+
+/-- **step_preserves** (every tolerance, Dantzig or Bland, any preference list).  One `step_inner` keeps
+the canonical form, the solution set and the represented objective; on a feasible tableau `current_value`
+does not decrease. -/
+theorem step_preserves {tol : K} {T T' : Tab K} {m n : Nat} (hC : Canon T m n) {prefer : List Nat}
+    {bland : Bool} {act : StepAction K} (hs : stepInner tol T prefer bland = .ok (act, T')) :
+    Canon T' m n ∧ (∀ x, Sol T' x ↔ Sol T x) ∧ (∀ c0, ObjInv T c0 → ObjInv T' c0) ∧
+      (Feasible T → T.value ≤ T'.value) :=
+  StepLemmas.stepInner_preserves hC hs
+
+/-- **steps_preserve** (induction over the history; every tolerance).  Wherever the loop of
+`solve_avoiding` / `solve_step_by_step` stops — success, `Unbounded`, or iteration limit, after any number
+of Dantzig and Bland steps — the tableau is canonical, equivalent to the start, and represents the same
+objective. -/
+theorem steps_preserve {tol : K} {T : Tab K} {m n : Nat} (hC : Canon T m n) (stallExtra limit : Nat)
+    (prefer : List Nat) :
+    Canon (solve tol stallExtra limit prefer T).final m n ∧
+    (∀ x, Sol (solve tol stallExtra limit prefer T).final x ↔ Sol T x) ∧
+    (∀ c0, ObjInv T c0 → ObjInv (solve tol stallExtra limit prefer T).final c0) :=
+  StepLemmas.solveLoop_preserves limit T 0 T.value [] hC
+
+/-- **steps_feasible_monotone** (exact comparisons).  Along the whole loop the basic solution stays
+non-negative and the objective `−current_value` never gets worse. -/
+theorem steps_feasible_monotone {T : Tab K} {m n : Nat} (hC : Canon T m n) (hF : Feasible T)
+    (stallExtra limit : Nat) (prefer : List Nat) :
+    Feasible (solve (0:K) stallExtra limit prefer T).final ∧
+    T.value ≤ (solve (0:K) stallExtra limit prefer T).final.value :=
+  FeasibleLemmas.solveLoop_feasible_exact limit T 0 T.value [] hC hF
+
+/-- **finished_optimal** (every tolerance `tol ≥ 0`).  When a step answers `Finished`, the basic solution
+is optimal up to `tol·Σx`: for every non-negative solution `x`, `c0·x_B ≤ c0·x + tol·Σx`. -/
+theorem finished_optimal {tol : K} (htol : 0 ≤ tol) {T T' : Tab K} {m n : Nat} (hC : Canon T m n)
+    {c0 : List K} (hO : ObjInv T c0) {prefer : List Nat} {bland : Bool}
+    (hs : stepInner tol T prefer bland = .ok (.finished, T')) (x : List K) (hxl : x.length = n)
+    (hS : Sol T x) (hx : NonNeg x) :
+    dot c0 (basicSolution T) ≤ dot c0 x + tol * x.sum :=
+  Optimal.finished_near_optimal htol hC hO hs x hxl hS hx
+
+/-- **finished_optimal_exact.**  With exact comparisons `Finished` means optimal, and the basic solution is
+itself a non-negative solution when the tableau is feasible. -/
+theorem finished_optimal_exact {T T' : Tab K} {m n : Nat} (hC : Canon T m n) (hF : Feasible T)
+    {c0 : List K} (hO : ObjInv T c0) {prefer : List Nat} {bland : Bool}
+    (hs : stepInner (0:K) T prefer bland = .ok (.finished, T')) :
+    Sol T (basicSolution T) ∧ (∀ j, 0 ≤ nth (basicSolution T) j) ∧
+    ∀ x : List K, x.length = n → Sol T x → NonNeg x → dot c0 (basicSolution T) ≤ dot c0 x := by
+  refine ⟨BasicSol.basicSolution_sol hC, BasicSol.basicSolution_nonneg hC hF, ?_⟩
+  intro x hxl hS hx
+  have := Optimal.finished_near_optimal (le_refl (0:K)) hC hO hs x hxl hS hx
+  simpa using this
+
+/-- **unbounded_genuine** (exact comparisons).  When a step answers `Unbounded`, the problem has
+non-negative solutions with objective below every bound. -/
+theorem unbounded_genuine {T : Tab K} {m n : Nat} (hC : Canon T m n) (hF : Feasible T) {c0 : List K}
+    (hO : ObjInv T c0) {prefer : List Nat} {bland : Bool} {e : SimplexErr}
+    (hs : stepInner (0:K) T prefer bland = .error e) (M : K) :
+    ∃ x : List K, x.length = n ∧ Sol T x ∧ (∀ j, 0 ≤ nth x j) ∧ dot c0 x < M :=
+  Unbounded.unbounded_genuine hC hF hO hs M
+
+/-- **terminates_within_limit_partial.**  The loop performs at most `limit` pivots (it is fuel-bounded by
+construction).  That Bland's rule reaches `Finished`/`Unbounded` BEFORE the limit (no cycling) is the
+classical termination theorem and is NOT proved here (planned: `bland_terminates`). -/
+theorem terminates_within_limit_partial {tol : K} (T : Tab K) (stallExtra limit : Nat) (prefer : List Nat) :
+    (solve tol stallExtra limit prefer T).steps.length ≤ limit := by
+  have := FeasibleLemmas.solveLoop_steps_le (tol := tol) (prefer := prefer)
+    (stallLimit := T.c.length + T.a.length + stallExtra) limit T 0 T.value []
+  simpa [solve] using this
+
+/-! ### Non-vacuity: the hypotheses are satisfiable (concrete tableaus over `ℚ`), and counterexamples
+for the statements that need exact comparisons. -/
+section examples
+
+/-- `min −x₀` with the row `x₀ + x₁ = 2`, `x₁` basic. -/
+def T0 : Tab ℚ := { c := [-1, 0], a := [[1, 1]], b := [2], basis := [1], value := 0, offset := 0, flip := false }
+/-- the same after the pivot: `x₀` basic, value `2`. -/
+def T0' : Tab ℚ := { c := [0, 1], a := [[1, 1]], b := [2], basis := [0], value := 2, offset := 0, flip := false }
+/-- `min −x₀` with the row `−x₀ + x₁ = 2`: unbounded. -/
+def T1 : Tab ℚ := { c := [-1, 0], a := [[-1, 1]], b := [2], basis := [1], value := 0, offset := 0, flip := false }
+
+example : Canon T0 1 2 := Unbounded.canon_of_one_row T0 [1, 1] 2 1 rfl rfl rfl rfl (by decide) (by simp [nth]) (by simp [T0, nth])
+example : Canon T0' 1 2 := Unbounded.canon_of_one_row T0' [1, 1] 2 0 rfl rfl rfl rfl (by decide) (by simp [nth]) (by simp [T0', nth])
+example : Canon T1 1 2 := Unbounded.canon_of_one_row T1 [-1, 1] 2 1 rfl rfl rfl rfl (by decide) (by simp [nth]) (by simp [T1, nth])
+example : Feasible T0 := by intro i hi; have : i = 0 := by simp [T0] at hi; omega
+                            subst this; simp [T0, nth]
+example : ObjInv T0 [-1, 0] := by intro x _ _; simp [T0]
+example : Sol T0 [2, 0] ∧ NonNeg [(2:ℚ), 0] := by
+  constructor
+  · intro i hi; have : i = 0 := by simp [T0] at hi; omega
+    subst this; simp [T0, row, nth, dot]
+  · intro j hj; have : j = 0 ∨ j = 1 := by simp at hj; omega
+    rcases this with rfl | rfl <;> simp [nth]
+/-- a pivot step, a `Finished` answer and an `Unbounded` answer all occur (exact comparisons). -/
+example : stepInner (0:ℚ) T0 [] false = .ok (.pivot 0 0 2, T0') := by
+  simp [stepInner, isOptimal, findH, findT, eligible, ratios, minByFirst, pivot, rowSubMul, rowDiv, T0, T0', Tol.fge,
+    Tol.feq, Tol.flt, Tol.fgt, nth, row, List.zipIdx]
+example : stepInner (0:ℚ) T0' [] false = .ok (.finished, T0') := by
+  simp [stepInner, isOptimal, findH, eligible, minByFirst, T0', Tol.fge, Tol.feq, Tol.flt, List.zipIdx]
+example : stepInner (0:ℚ) T1 [] false = .error .unbounded := by
+  simp [stepInner, isOptimal, findH, findT, eligible, ratios, minByFirst, T1, Tol.fge, Tol.feq, Tol.flt, Tol.fgt, nth,
+    List.zipIdx]
+
+/-- tolerance `1e-5`, second row has the entry `5e-6` in the entering column: the ratio test ignores it. -/
+def T2 : Tab ℚ := { c := [-1, 0, 0], a := [[1, 1, 0], [1/200000, 0, 1]], b := [10, 0], basis := [1, 2],
+                    value := 0, offset := 0, flip := false }
+
+/-- **pivot_feasible fails for `tol > 0`**: `find_t` with tolerance `1e-5` selects row 0 although row 1 has a
+positive (sub-tolerance) entry; after the pivot `b₁ = −1/20000 < 0`.  (This is the known finding
+`C14-absolute-tolerance-on-unscaled-data`.) -/
+theorem pivot_feasible_tol_counterexample :
+    findT (1/100000 : ℚ) T2 0 [] = some (0, 10) ∧ Feasible T2 ∧ nth (pivot T2 0 0).b 1 = -1/20000 ∧
+      ¬ Feasible (pivot T2 0 0) := by
+  refine ⟨?_, ?_, ?_, ?_⟩
+  · have h1 : |(1:ℚ)| = 1 := abs_one
+    have h2 : |(200000:ℚ)⁻¹| = 200000⁻¹ := abs_of_pos (by norm_num)
+    simp [findT, ratios, T2, Tol.feq, Tol.fgt, nth, List.zipIdx, List.filterMap_cons, h1, h2]
+    norm_num
+  · intro i hi
+    have : i = 0 ∨ i = 1 := by simp [T2] at hi; omega
+    rcases this with rfl | rfl <;> simp [T2, nth]
+  · simp [pivot, T2, nth, row]; norm_num
+  · intro hF
+    have := hF 1 (by simp [pivot, T2])
+    simp [pivot, T2, nth, row] at this
+    norm_num at this
+
+/-- reduced cost `−5e-6`: below the tolerance. -/
+def T3 : Tab ℚ := { c := [-1/200000, 0], a := [[1, 1]], b := [2], basis := [1], value := 0, offset := 0, flip := false }
+
+/-- **exact optimality fails for `tol > 0`**: with tolerance `1e-5` the step answers `Finished` at the basic
+solution `(0, 2)` of objective `0`, while `(2, 0)` is feasible with objective `−1/100000`
+(`finished_optimal` bounds the gap by `tol·Σx`). -/
+theorem finished_optimal_tol_counterexample :
+    stepInner (1/100000 : ℚ) T3 [] false = .ok (.finished, T3) ∧ Sol T3 [2, 0] ∧
+      dot [(-1/200000 : ℚ), 0] [2, 0] < dot [(-1/200000 : ℚ), 0] (basicSolution T3) := by
+  refine ⟨?_, ?_, ?_⟩
+  · simp [stepInner, isOptimal, T3, Tol.fge, Tol.feq]
+    norm_num [abs_of_pos]
+  · intro i hi; have : i = 0 := by simp [T3] at hi; omega
+    subst this; simp [T3, row, nth, dot]
+  · simp [basicSolution, variablesValues, T3, dot, nth, List.zipIdx]
+    norm_num
+
+end examples
+
 end Rooc.Props.C14
